@@ -92,7 +92,7 @@ def run(ctx: Ctx, systematic=False):
         trees += list(systematic_collisions())
     cat = specgen.catalogue_specs()
     for i in ([0, 3, 5] if not (ctx.tier == "thorough") else range(len(cat))):
-        trees.append((f"catalogue-{i}", cat[i][2], []))
+        trees.append((f"catalogue-{i}-{cat[i][0][:48]}", cat[i][2], []))
     for i in range(6 if not (ctx.tier == "thorough") else 40):
         files, names = collision_tree(rng, rng.randrange(1, 4))
         trees.append((f"collide-{i}-{'-'.join(names)}", files, names))
@@ -167,9 +167,10 @@ def run(ctx: Ctx, systematic=False):
                     home = "eolib.protocol" + ("." + d.replace("/", ".") if d else "")
                     a, b = top.get(n), real["ns"].get(home, {}).get(n)
                     if a is None or a != b or not a.startswith("d:eolib.protocol._generated"):
-                        genprops.fails(ctx, case, f"generated class {n}: top-level package has {a}, {home} has {b}", dict(detail, name=n),
-                                       key="class:" + n)
-                        if not ctx.known_match("class:" + n):
+                        # only the catalogue tree written to exhibit the recorded finding may match it
+                        key = "export:partial-init" if ("KNOWN[C18:export:partial-init]" in case.tag and b is None) else "class:" + n
+                        genprops.fails(ctx, case, f"generated class {n}: top-level package has {a}, {home} has {b}", dict(detail, name=n), key=key)
+                        if not ctx.known_match(key):
                             return
                 # ---- correspondence: the whole namespace, module by module
                 mns = {}
